@@ -33,6 +33,11 @@ func init() {
 			}
 			f.Nat(q.fact, v)
 		}
+		v, err := c12MigrateSnapshotOrder(repo + "/c2/session.go")
+		if err != nil {
+			return err
+		}
+		f.Nat("c12_migrateSnapshotAfterDrain", v)
 		f.Nat("c12_infoHello", uint64(c2.VerifC12InfoHello))
 		f.Nat("c12_infoMigrate", uint64(c2.VerifC12InfoMigrate))
 		f.Nat("c12_infoRefresh", uint64(c2.VerifC12InfoRefresh))
@@ -494,6 +499,58 @@ func c12SeedOrder(file, fn, kind string) (uint64, error) {
 			return 1, nil
 		}
 		return 0, nil
+	}
+	return 0, nil
+}
+
+// c12MigrateSnapshotOrder: in (*Session).MigrateProfile the hand-off is written by
+// writeDeviceInfo(infoMigrate, …) straight into the pipe - is every such call placed after the Session
+// lock is taken, after the loop that waits for the pending work (`for s.m.count() > 0`) and after the
+// wait for the new process' pipe (spinTimeout)? (1 yes; 0 no, or one of the four is missing). A
+// snapshot marshalled earlier would hand the new process settings that an order still in flight
+// replaces on the old one.
+func c12MigrateSnapshotOrder(file string) (uint64, error) {
+	fs := token.NewFileSet()
+	af, err := parser.ParseFile(fs, file, nil, 0)
+	if err != nil {
+		return 0, err
+	}
+	fd := findFunc(af, "Session", "MigrateProfile")
+	if fd == nil || fd.Body == nil {
+		return 0, nil
+	}
+	lock, loop, spin := token.NoPos, token.NoPos, token.NoPos
+	firstWrite := token.NoPos
+	writes := 0
+	ast.Inspect(fd.Body, func(n ast.Node) bool {
+		switch x := n.(type) {
+		case *ast.ForStmt:
+			if x.Cond != nil && strings.Contains(exprStr(x.Cond), "count") && loop == token.NoPos {
+				loop = x.Pos()
+			}
+		case *ast.CallExpr:
+			switch fn := x.Fun.(type) {
+			case *ast.SelectorExpr:
+				switch {
+				case fn.Sel.Name == "Lock" && exprStr(fn.X) == "s.lock" && lock == token.NoPos:
+					lock = x.Pos()
+				case fn.Sel.Name == "writeDeviceInfo" && len(x.Args) >= 1:
+					if id, ok := x.Args[0].(*ast.Ident); ok && id.Name == "infoMigrate" {
+						if writes++; firstWrite == token.NoPos {
+							firstWrite = x.Pos()
+						}
+					}
+				}
+			case *ast.Ident:
+				if fn.Name == "spinTimeout" && spin == token.NoPos {
+					spin = x.Pos()
+				}
+			}
+		}
+		return true
+	})
+	if writes >= 1 && lock != token.NoPos && loop != token.NoPos && spin != token.NoPos && lock < loop && loop < spin && spin < firstWrite {
+		return 1, nil
 	}
 	return 0, nil
 }
